@@ -47,6 +47,11 @@ class Engine:
         self.assumptions.append(c)
         self.solver.add(c)
 
+    def assume_fact(self, c):
+        """defining constraint of a fresh value introduced by a model (part of the path condition)"""
+        self.pc.append(c)
+        self.solver.add(c)
+
     def feasible(self, c):
         self.solver.push()
         self.solver.add(c)
@@ -102,6 +107,7 @@ def eng():
 class Sym:
     __slots__ = ()
     __hash__ = None
+    __array_ufunc__ = None  # real ndarrays defer binary operations to the symbolic operand
 
 
 class SymBool(Sym):
@@ -332,6 +338,10 @@ class SymBV(Sym):
         return None
 
     def _ar(self, o, f, swap=False):
+        if isinstance(o, numpy.ndarray):
+            if o.dtype != numpy.dtype(self.t) or o.ndim != 1:
+                raise Unsupported("uint scalar op ndarray of other dtype/rank")
+            return SymArray([self._ar(v, f, swap) for v in o], self.t)
         b = self._co(o)
         if b is None:
             return NotImplemented
@@ -494,7 +504,8 @@ class SymInt(Sym):
         if b is None:
             return NotImplemented
         a = self.e
-        eng().side.append(("nonzero-divisor", b != 0))
+        if eng().branch(b == 0):
+            raise ZeroDivisionError("integer division or modulo by zero")
         q = a / b  # bvsdiv truncates
         r = z3.SRem(a, b)
         adj = z3.And(r != 0, (r < 0) != (b < 0))
@@ -505,10 +516,25 @@ class SymInt(Sym):
         if b is None:
             return NotImplemented
         a = self.e
-        eng().side.append(("nonzero-divisor", b != 0))
+        if eng().branch(b == 0):
+            raise ZeroDivisionError("integer division or modulo by zero")
         r = z3.SRem(a, b)
         adj = z3.And(r != 0, (r < 0) != (b < 0))
         return SymInt(z3.If(adj, r + b, r))
+
+    def __rfloordiv__(self, o):
+        return SymInt(self._co(o)).__floordiv__(self)
+
+    def __truediv__(self, o):
+        b = self._co(o)
+        if b is None:
+            return NotImplemented
+        if eng().branch(b == 0):
+            raise ZeroDivisionError("division by zero")
+        return SymQuot(self.e, b)
+
+    def __rtruediv__(self, o):
+        return SymInt(self._co(o)).__truediv__(self)
 
     def __lshift__(self, o):
         if not isinstance(o, int):
@@ -581,6 +607,188 @@ class SymInt(Sym):
         raise Unsupported("float() of a symbolic int")
 
 
+class SymQuot(Sym):
+    """float(a)/float(b) of two Python ints (a true division).  Only int() of it is modelled:
+    int(a / b) = trunc(RN(a/b)); for a >= 0, b > 0 that is floor(a/b) or floor(a/b)+1 (when the quotient
+    rounds up to an integer) - modelled as a fresh value constrained to those two (sound over-approximation)."""
+
+    __slots__ = ("a", "b")
+
+    def __init__(self, a, b):
+        self.a, self.b = a, b
+
+    def to_int(self):
+        e = eng()
+        if not e.branch(z3.And(self.a >= 0, self.b > 0)):
+            raise Unsupported("int(a/b) with negative operands")
+        q = z3.BitVec(e.fresh_name("quot"), e.W)
+        fl = self.a / self.b  # bvsdiv = floor for non-negative operands
+        e.assume_fact(z3.Or(q == fl, z3.And(q == fl + 1, z3.SRem(self.a, self.b) != 0)))
+        return SymInt(q)
+
+
+class SymArray(Sym):
+    """a 1-D NumPy array of symbolic scalars of one type"""
+
+    __slots__ = ("items", "t")
+
+    def __init__(self, items, t):
+        self.items, self.t = list(items), t
+
+    @property
+    def size(self):
+        return len(self.items)
+
+    @property
+    def shape(self):
+        return (len(self.items),)
+
+    @property
+    def dtype(self):
+        return numpy.dtype(self.t)
+
+    def __len__(self):
+        return len(self.items)
+
+    def __iter__(self):
+        return iter(self.items)
+
+    def __getitem__(self, i):
+        if isinstance(i, slice):
+            return SymArray(self.items[i], self.t)
+        if isinstance(i, int):
+            return self.items[i]
+        raise Unsupported("symbolic array index")
+
+    def __setitem__(self, i, v):
+        if not isinstance(i, int):
+            raise Unsupported("symbolic array index")
+        self.items[i] = _coerce_scalar(v, self.t)
+
+    def _map(self, f):
+        out = [f(x) for x in self.items]
+        t = out[0].t if out else self.t
+        return SymArray(out, t)
+
+    def __neg__(self):
+        return self._map(lambda x: -x)
+
+    def __add__(self, o):
+        return self._map(lambda x: x + o)
+
+    def __radd__(self, o):
+        return self._map(lambda x: o + x)
+
+    def __sub__(self, o):
+        return self._map(lambda x: x - o)
+
+    def view(self, t):
+        t = _unwrap_dtype(t)
+        return self._map(lambda x: x.view(t))
+
+    def __bool__(self):
+        raise Unsupported("truth value of an array")
+
+
+def _coerce_scalar(v, t):
+    if isinstance(v, Sym):
+        if getattr(v, "t", None) is t:
+            return v
+        if isinstance(v, SymFP) and t in FMT:
+            return _cast(v, t)
+        if isinstance(v, SymInt) and t in FLOAT_OF_UINT:
+            n = numpy.dtype(t).itemsize * 8
+            if eng().branch(z3.Or(v.e < 0, v.e >= z3.BitVecVal(1 << n, eng().W))):
+                raise OverflowError("Python integer out of bounds for %s" % t.__name__)
+            return SymBV(z3.Extract(n - 1, 0, v.e), t)
+        raise Unsupported("array element %r into %r" % (type(v), t))
+    if t in FMT:
+        return SymFP(fpval(v, FMT[t]), t)
+    if t in FLOAT_OF_UINT:
+        n = numpy.dtype(t).itemsize * 8
+        return SymBV(z3.BitVecVal(int(v), n), t)
+    raise Unsupported("array of %r" % t)
+
+
+class SymDType:
+    """stands for a NumPy scalar type object (numpy.float32 ...) that can be CALLED on symbolic values;
+    hashes and compares equal to the real type so dict / set lookups behave identically"""
+
+    def __init__(self, t):
+        self.t = t
+        self.__name__ = t.__name__
+        self.dtype = numpy.dtype(t)  # lets real NumPy functions accept this object where a dtype is expected
+
+    def __hash__(self):
+        return hash(self.t)
+
+    def __eq__(self, o):
+        return o is self.t or (isinstance(o, SymDType) and o.t is self.t)
+
+    def __ne__(self, o):
+        return not self.__eq__(o)
+
+    def __call__(self, v=0):
+        if isinstance(v, SymFP):
+            return _cast(v, self.t)
+        if isinstance(v, Sym):
+            raise Unsupported("%s(%s)" % (self.t.__name__, type(v).__name__))
+        with numpy.errstate(all="ignore"):
+            return self.t(v)
+
+
+def _unwrap_dtype(t):
+    if isinstance(t, SymDType):
+        return t.t
+    if isinstance(t, numpy.dtype):
+        return t.type
+    return t
+
+
+class SymRange:
+    """range(...) with symbolic bounds: iteration follows Python's definition, forking on each test"""
+
+    def __init__(self, *a):
+        if len(a) == 1:
+            self.start, self.stop, self.step = 0, a[0], 1
+        elif len(a) == 2:
+            self.start, self.stop, self.step = a[0], a[1], 1
+        else:
+            self.start, self.stop, self.step = a
+        st = self.step
+        if isinstance(st, SymInt):
+            if eng().branch(st.e == 0):
+                raise ValueError("range() arg 3 must not be zero")
+
+    def __iter__(self):
+        i = self.start
+        n = 0
+        pos = self.step > 0
+        if not isinstance(pos, bool):
+            pos = bool(pos)
+        while True:
+            c = (i < self.stop) if pos else (i > self.stop)
+            if not (bool(c)):
+                return
+            yield i
+            i = i + self.step
+            n += 1
+            if n > 4096:
+                raise Unsupported("symbolic range longer than 4096")
+
+
+def _range(*a):
+    if any(isinstance(x, Sym) for x in a):
+        return SymRange(*a)
+    return builtins.range(*a)
+
+
+def _len(x):
+    if isinstance(x, SymArray):
+        return len(x.items)
+    return builtins.len(x)
+
+
 # ---------------------------------------------------------------------------------------------
 # shadows
 # ---------------------------------------------------------------------------------------------
@@ -614,6 +822,8 @@ def _int(x=0, *a):
     if isinstance(x, SymBool):
         W = eng().W
         return SymInt(z3.If(x.e, z3.BitVecVal(1, W), z3.BitVecVal(0, W)))
+    if isinstance(x, SymQuot):
+        return x.to_int()
     if isinstance(x, Sym):
         raise Unsupported("int(%s)" % type(x).__name__)
     return builtins.int(x, *a)
@@ -661,15 +871,28 @@ class _NumpyShadow:
         m = _NP_MODELS.get(name)
         real = getattr(numpy, name)
         if m is None:
+            if name == "finfo":
+                return lambda t: numpy.finfo(_unwrap_dtype(t))
             return real
 
         def f(*args, **kw):
-            if any(isinstance(a, Sym) for a in args):
+            if _has_sym(args) or _has_sym(tuple(kw.values())):
                 return m(*args, **kw)
+            args = tuple(_unwrap_dtype(a) if isinstance(a, SymDType) else a for a in args)
+            kw = {k: (_unwrap_dtype(v) if isinstance(v, SymDType) else v) for k, v in kw.items()}
             return real(*args, **kw)
 
         f.__name__ = name
         return f
+
+
+def _has_sym(args):
+    for a in args:
+        if isinstance(a, Sym):
+            return True
+        if isinstance(a, (list, tuple)) and _has_sym(a):
+            return True
+    return False
 
 
 def _np_isfinite(x):
@@ -752,7 +975,43 @@ def _np_ldexp(x, k):
     raise Unsupported("ldexp(%r, %r): only ldexp(1, symbolic int) is modelled" % (x, type(k)))
 
 
+def _np_array(obj, dtype=None, **kw):
+    t = _unwrap_dtype(dtype)
+    if t is None:
+        raise Unsupported("numpy.array of symbolic values without dtype")
+    return SymArray([_coerce_scalar(v, t) for v in obj], t)
+
+
+def _np_concatenate(parts, **kw):
+    parts = list(parts)
+    t = None
+    for p in parts:
+        if isinstance(p, SymArray):
+            t = p.t
+    items = []
+    for p in parts:
+        if isinstance(p, SymArray):
+            items.extend(p.items)
+        else:
+            items.extend(_coerce_scalar(v, t) for v in p)
+    return SymArray(items, t)
+
+
+class UniqueOf(SymArray):
+    """numpy.unique(a): recorded, not computed - contract (assumed on NumPy): for a non-decreasing `a`
+    (with +0 == -0) the result is `a` with repeated neighbours removed."""
+
+    __slots__ = ()
+
+
+def _np_unique(a, **kw):
+    return UniqueOf(a.items, a.t)
+
+
 _NP_MODELS = {
+    "array": _np_array,
+    "concatenate": _np_concatenate,
+    "unique": _np_unique,
     "isfinite": _np_isfinite,
     "isinf": _np_isinf,
     "isnan": _np_isnan,
@@ -782,6 +1041,8 @@ def reglobal(module, extra=None, numpy_extra=None, int_shadow=True):
     g["type"] = _type
     g["bool"] = _bool
     g["float"] = _float
+    g["range"] = _range
+    g["len"] = _len
     if "numpy" in g:
         g["numpy"] = _NumpyShadow(numpy_extra)
     if "np" in g and g["np"] is numpy:
@@ -827,6 +1088,10 @@ def explore(run, int_width=80, max_paths=5000):
             Engine.cur = None
             raise
         except Exception as ex:  # the real code raised on this path
+            msg = str(ex)
+            if "vf.symrun" in msg or "Sym" in msg and isinstance(ex, (TypeError, AttributeError)):
+                Engine.cur = None
+                raise Unsupported("engine object leaked into an unmodelled operation: %s: %s" % (type(ex).__name__, msg))
             exc = ex
         finally:
             Engine.cur = None
